@@ -21,7 +21,8 @@ inductive XE where
   | delta (a : XE)                     -- AdjointExteriorDerivative node
   | hodge (a : XE)                     -- Hodge node
   | wedge (a b : XE)                   -- ExteriorProduct node
-  | other (tag : String) (as : List XE) -- any other sympy node (Pow, Symbol, ...): opaque
+  | other (tag : String) (as : List XE) -- any other sympy node (Symbol, ...): opaque, except that
+                                        -- `other "Pow" [b, e]` with b, e numbers/Constants is a coefficient
   deriving Repr, Inhabited, BEq
 
 open XE
@@ -29,10 +30,24 @@ open XE
 def zero : XE := num 0 1
 def one  : XE := num 1 1
 
-/-- `isinstance(a, _coeffs_registery)` -/
+/-- `isinstance(a, _coeffs_registery)`: a number or a sympde `Constant` -/
+def isReg : XE → Bool
+  | num _ _ => true
+  | cst _ => true
+  | _ => false
+
+/-- argument list of a `Pow` whose base and exponent both are registry members -/
+def isRegPair : List XE → Bool
+  | [b, e] => isReg b && isReg e
+  | _ => false
+
+/-- `_is_coeff(a)` (calculus.py:25, after the `fix:` commit 5022685): a registry member, or a
+    `Pow` of two registry members — sympy stores `c*c` as `c**2`, sent as
+    `other "Pow" [base, exp]`.  Before that commit this was `isReg`. -/
 def isCoef : XE → Bool
   | num _ _ => true
   | cst _ => true
+  | other t as => t == "Pow" && isRegPair as
   | _ => false
 
 def coefs (as : List XE) : List XE := as.filter isCoef
@@ -58,15 +73,18 @@ def shortcut : U → XE → Option XE
   | .d, XE.d _ => some zero
   | .d, num _ _ => some zero
   | .d, cst _ => some zero
+  | .d, other t as => if isCoef (other t as) then some zero else none
   | .d, form _ k n => if k == n then some zero else none
   | .delta, XE.delta _ => some zero
   | .delta, num _ _ => some zero
   | .delta, cst _ => some zero
+  | .delta, other t as => if isCoef (other t as) then some zero else none
   | .delta, form _ k _ => if k == 0 then some zero else none
   | .hodge, XE.hodge (form s k n) =>
       some (mul [num ((-1 : Int) ^ (k * (n - k))) 1, form s k n])
   | .hodge, num _ _ => some zero
   | .hodge, cst _ => some zero
+  | .hodge, other t as => if isCoef (other t as) then some zero else none
   | _, _ => none
 
 /-! #### simplified models of sympy's `Add` / `Mul` constructors
